@@ -205,6 +205,9 @@ func genRichConfig(t *rapid.T, size int) *RichConfig {
 		rnames = rapid.SliceOfNDistinct(rapid.IntRange(0, 99), nR, nR, rapid.ID[int]).Draw(t, "rnames")
 		tnames = rapid.SliceOfNDistinct(rapid.IntRange(0, 99), nT, nT, rapid.ID[int]).Draw(t, "tnames")
 	}
+	// In one configuration out of four some requests are listed with a nil
+	// message (valid: Validate asks for the key only).
+	nilReqs := choose(t, "nilreqs", 3, 1) == 1
 	for _, i := range rnames {
 		b := bodies[rapid.IntRange(0, len(bodies)-1).Draw(t, "body")].clone()
 		if salt := rapid.IntRange(0, 3).Draw(t, "salt"); salt > 0 && b.Kind == 0 {
@@ -215,7 +218,11 @@ func genRichConfig(t *rapid.T, size int) *RichConfig {
 				b.HasQos, b.Qos = true, uint32(s)
 			}
 		}
-		c.Requests = append(c.Requests, NamedReq{Name: nameOf("sub", i), Body: b})
+		nr := NamedReq{Name: nameOf("sub", i), Body: b}
+		if nilReqs && choose(t, "reqnil", 3, 2) == 1 {
+			nr.Nil = true
+		}
+		c.Requests = append(c.Requests, nr)
 	}
 	for _, i := range tnames {
 		rt := tmpls[rapid.IntRange(0, len(tmpls)-1).Draw(t, "tmpl")].clone()
@@ -224,7 +231,7 @@ func genRichConfig(t *rapid.T, size int) *RichConfig {
 	}
 	// sometimes a request whose name is the empty string (nothing can refer to it)
 	if choose(t, "emptyreq", 9, 1) == 1 {
-		c.Requests = append(c.Requests, NamedReq{Name: "", Body: bodies[0].clone()})
+		c.Requests = append(c.Requests, NamedReq{Name: "", Nil: nilReqs, Body: bodies[0].clone()})
 	}
 	return c
 }
@@ -253,7 +260,7 @@ func genREdit(t *rapid.T, invalid bool) REdit {
 		e.S = rapid.SampledFrom(keyNames).Draw(t, "s")
 	case e.Kind == "t-rename", e.Kind == "t-add":
 		e.S = nameOf("dev", rapid.IntRange(0, 120).Draw(t, "sname"))
-	case e.Kind == "r-rename", e.Kind == "r-add-unused", e.Kind == "t-repoint":
+	case e.Kind == "r-rename", e.Kind == "r-add-unused", e.Kind == "t-repoint", e.Kind == "r-nil", e.Kind == "r-add-nil":
 		e.S = nameOf("sub", rapid.IntRange(0, 120).Draw(t, "sname"))
 	default:
 		e.S = rapid.SampledFrom([]string{"", "1", "x", "ü"}).Draw(t, "s")
